@@ -527,7 +527,8 @@ class Ctx:
             if what in seen:
                 continue
             seen.add(what)
-            print(f"KNOWN-FINDING: property={self.pid} {what}")
+            keys = [f for w, f in self.known_hit if w == what]
+            print(f"KNOWN-FINDING: property={self.pid} {what} [{len(keys)} case(s) in this run, e.g. {keys[0][:200]}]")
         if self.violations:
             shown = set()
             for clause, key, detail, path in self.violations[:40]:
